@@ -1,0 +1,131 @@
+//go:build verif
+
+package integrate
+
+// Copyright ©2026 The Gonum Authors. All rights reserved.
+// Use of this source code is governed by a BSD-style
+// license that can be found in the LICENSE file.
+
+// Machine-checked contracts for the sampled-data quadrature rules of this package
+// (verification hook, build tag verif; this file contains comments only).
+// The contract language and the checker are described in /verif/DESIGN.md.
+//
+// valid is the argument contract (written from the doc comments); a function with
+// "panics iff !valid, before-writes" panics explicitly exactly when valid is false
+// and does not fault otherwise. [real] clauses are decided in a second pass where
+// float64 is the field of real numbers: they establish the rule in exact arithmetic,
+// not its rounding behaviour.
+
+// ---- Trapezoidal ------------------------------------------------------------------
+//
+// Exactness for polynomials of degree <= 1 on an arbitrary grid. The integrand is affine
+// when every sample lies on the line through the first two: affine(x, f, 0, n) is
+// "for all k < n: (f[k]-f[0])*(x[1]-x[0]) == (f[1]-f[0])*(x[k]-x[0])" (a recursive
+// definition instead of a quantifier, so that the loop step is one unfolding; the
+// division-free form keeps the solver inside polynomial identities). Then, with
+// dx = x[1]-x[0], df = f[1]-f[0], u = x[n-1]-x[0]:
+//     2*dx*result == df*u² + 2*f[0]*dx*u,
+// which for dx != 0 is result == a/2*(x[n-1]² - x[0]²) + b*(x[n-1]-x[0]) with the slope
+// a = df/dx and the intercept b = f[0] - a*x[0] (lemma trapezoid_closed_form): the exact
+// integral of a*x+b. The documentation asks for strictly increasing x but only unsorted x
+// panics; repeated abscissae contribute intervals of width 0.
+
+//@ spec rec affine(x []float64, f []float64, i int, n int) bool decreases n - i =
+//@      ite(i >= n, true, (f[i]-f[0])*(x[1]-x[0]) == (f[1]-f[0])*(x[i]-x[0]) && affine(x, f, i+1, n))
+//@ spec affint2(x []float64, f []float64, i int) float64 = (f[1]-f[0])*(x[i]-x[0])*(x[i]-x[0]) + 2*f[0]*(x[1]-x[0])*(x[i]-x[0])
+
+//@ func Trapezoidal props: C18
+//@ valid len(f) == len(x) && len(x) >= 2 && sortedFloats(x)
+//@ panics iff !valid, before-writes
+//@ writes nothing
+//@ ensures [real] affine(x, f, 0, len(x)) ==> 2*(x[1]-x[0])*result == affint2(x, f, len(x)-1)
+//@ loop 1: invariant [real] affine(x, f, 0, len(x)) ==> affine(x, f, it, len(x)) && 2*(x[1]-x[0])*integral == affint2(x, f, it)
+
+//@ lemma trapezoid_closed_form props: C18
+//@ floats: real
+//@ var x0 float64, x1 float64, xn float64, f0 float64, f1 float64, r float64, a float64, b float64
+//@ hyp x1 != x0 && a == (f1-f0)/(x1-x0) && b == f0 - a*x0
+//@ hyp 2*(x1-x0)*r == (f1-f0)*(xn-x0)*(xn-x0) + 2*f0*(x1-x0)*(xn-x0)
+//@ goal r == a/2*(xn*xn - x0*x0) + b*(xn-x0)
+
+// ---- Simpsons ---------------------------------------------------------------------
+//
+// Panics exactly on a length mismatch, fewer than 3 points, unsorted x or a repeated
+// abscissa (stepsNonzero: every difference x[k+1]-x[k] of neighbours is not 0, written
+// with the code's own comparison; for finite values this is x[k+1] != x[k], together with
+// sortedness: strictly increasing); no index fault for any length.
+//
+// Value: in exact arithmetic the result is the defining composite sum: (n-1)/2 panels
+// of three points with the weights w0, w1, w2 and, for an even number of points, the end
+// correction t0, t1, t2 on the last three points. The lemmas simpson_panel_exact and
+// simpson_tail_exact show that a panel integrates every quadratic exactly over its two
+// intervals, and the end correction over the last interval, for arbitrary positive steps
+// h0, h1. (Exactness of the whole sum for quadratic data as one clause, with a loop
+// invariant like the one of Trapezoidal, was tried: the loop step is a degree-6 rational
+// identity inside the array context and stays undecided in the thorough tier.)
+
+//@ spec rec stepsNonzero(x []float64, i int, n int) bool decreases n - i =
+//@      ite(i >= n-1, true, !(x[i+1]-x[i] == 0) && stepsNonzero(x, i+1, n))
+
+//@ spec w0(h0 float64, h1 float64) float64 = (2*(h0*h0*h0) - h1*h1*h1 + 3*h1*(h0*h0)) / (6*h0*(h0+h1))
+//@ spec w1(h0 float64, h1 float64) float64 = (h0*h0*h0 + h1*h1*h1 + 3*h0*h1*(h0+h1)) / (6*h0*h1)
+//@ spec w2(h0 float64, h1 float64) float64 = (-(h0*h0*h0) + 2*(h1*h1*h1) + 3*h0*(h1*h1)) / (6*h1*(h0+h1))
+//@ spec t0(h0 float64, h1 float64) float64 = -1*(h1*h1*h1) / (6*h0*(h0+h1))
+//@ spec t1(h0 float64, h1 float64) float64 = (h1*h1 + 3*h0*h1) / (6*h0)
+//@ spec t2(h0 float64, h1 float64) float64 = (2*(h1*h1) + 3*h0*h1) / (6*(h0+h1))
+//@ spec rec panels(x []float64, f []float64, m int) float64 decreases m =
+//@      ite(m <= 0, 0, panels(x, f, m-1) + w0(x[2*m-1]-x[2*m-2], x[2*m]-x[2*m-1])*f[2*m-2] + w1(x[2*m-1]-x[2*m-2], x[2*m]-x[2*m-1])*f[2*m-1] + w2(x[2*m-1]-x[2*m-2], x[2*m]-x[2*m-1])*f[2*m])
+//@ spec tail(x []float64, f []float64, n int) float64 = t0(x[n-2]-x[n-3], x[n-1]-x[n-2])*f[n-3] + t1(x[n-2]-x[n-3], x[n-1]-x[n-2])*f[n-2] + t2(x[n-2]-x[n-3], x[n-1]-x[n-2])*f[n-1]
+
+//@ func Simpsons props: C18
+//@ valid len(f) == len(x) && len(x) >= 3 && sortedFloats(x) && stepsNonzero(x, 0, len(x))
+//@ panics iff !valid, before-writes
+//@ writes nothing
+//@ loop 1: invariant stepsNonzero(x, 0, len(x)) == stepsNonzero(x, i-1, len(x))
+//@ invariant it > 0 ==> !(x[i-1]-x[i-2] == 0)
+//@ invariant i <= len(x)
+//@ ensures [real] len(x)%2 == 1 ==> result == panels(x, f, (len(x)-1)/2)
+//@ ensures [real] len(x)%2 == 0 ==> result == panels(x, f, (len(x)-2)/2) + tail(x, f, len(x))
+//@ loop 1: invariant [real] integral == panels(x, f, it)
+
+// the 3-point rule with the weights w0, w1, w2 integrates c0 + c1*t + c2*t² exactly over [-h0, h1]
+// (t measured from the middle abscissa); the end correction t0, t1, t2 integrates it exactly over
+// the last interval [0, h1]
+//@ lemma simpson_panel_exact props: C18
+//@ floats: real
+//@ var h0 float64, h1 float64, c0 float64, c1 float64, c2 float64
+//@ hyp h0 > 0 && h1 > 0
+//@ goal w0(h0, h1)*(c0 - c1*h0 + c2*h0*h0) + w1(h0, h1)*c0 + w2(h0, h1)*(c0 + c1*h1 + c2*h1*h1) == c0*(h0+h1) + c1*(h1*h1 - h0*h0)/2 + c2*(h1*h1*h1 + h0*h0*h0)/3
+
+//@ lemma simpson_tail_exact props: C18
+//@ floats: real
+//@ var h0 float64, h1 float64, c0 float64, c1 float64, c2 float64
+//@ hyp h0 > 0 && h1 > 0
+//@ goal t0(h0, h1)*(c0 - c1*h0 + c2*h0*h0) + t1(h0, h1)*c0 + t2(h0, h1)*(c0 + c1*h1 + c2*h1*h1) == c0*h1 + c1*(h1*h1)/2 + c2*(h1*h1*h1)/3
+
+// on a uniform grid the panel weights are the classical h/3, 4h/3, h/3, which integrate cubics too
+//@ lemma simpson_uniform_weights props: C18
+//@ floats: real
+//@ var h float64, c0 float64, c1 float64, c2 float64, c3 float64
+//@ hyp h > 0
+//@ goal w0(h, h) == h/3 && w1(h, h) == 4*h/3 && w2(h, h) == h/3 && w0(h, h)*(c0 - c1*h + c2*h*h - c3*h*h*h) + w1(h, h)*c0 + w2(h, h)*(c0 + c1*h + c2*h*h + c3*h*h*h) == 2*c0*h + 2*c2*h*h*h/3
+
+// ---- Romberg ----------------------------------------------------------------------
+//
+// Index safety and purity: f is read only inside [0, len(f)), the two halves of the work
+// array are addressed inside their lengths for every admissible length 2^k+1, nothing the
+// caller can see is written. The documented panics are claimed in one direction only
+// (option may-panic plus the ensures clause: whenever Romberg returns, len(f) is 2^m+1
+// with m >= 1 and dx <= 0 does not hold): k is computed with math/bits.Len, which the
+// checker treats as an uninterpreted function, so "a valid length does not panic" is not
+// derivable. dx is tested with dx <= 0: a NaN spacing is not rejected (the result is NaN).
+
+//@ func Romberg props: C18
+//@ option may-panic
+//@ writes nothing
+//@ ensures len(f) >= 3 && !(dx <= 0) && exists(m, 1, 63, len(f) == pow2(m)+1)
+//@ loop 1: invariant 1 <= k && k <= 62 && n == pow2(k) && n == len(f)-1
+//@ invariant 1 <= i && i <= k+1 && step*pow2(i-1) == n && step >= 1
+//@ invariant len(prev) == k+1 && len(curr) == k+1 && fresh(prev) && fresh(curr)
+//@ loop 2: invariant j == it*step
+//@ invariant 2*j + 2*(pow2(i-1) - it)*step == n && it <= pow2(i-1)
